@@ -10,7 +10,7 @@ TITLE = "Condition expressions are grouped by the documented operator precedence
 ENGINE = "e1-bounded-enumeration"
 
 BOUNDS = {
-    "quick": {"chain_n": 7, "br_n": 4, "br_pairs": 2, "spell_n": 4, "ws_n": 2, "redundant_n": 3, "kinds_n": 3,
+    "quick": {"chain_n": 7, "br_n": 4, "br_pairs": 3, "spell_n": 4, "ws_n": 2, "redundant_n": 3, "kinds_n": 3,
               "long_n": [14], "long_dev": 1},
     "thorough": {"chain_n": 9, "br_n": 5, "br_pairs": 3, "spell_n": 5, "ws_n": 3, "redundant_n": 4, "kinds_n": 4,
                  "long_n": [13, 17, 24], "long_dev": 2},
